@@ -2,7 +2,7 @@
 from hypothesis import strategies as st
 
 from .. import api
-from ..gen import runnable
+from ..gen import apidrive, runnable
 from ..oracle import observe
 from ..runner import hyp_run, sha
 
@@ -16,6 +16,9 @@ RULE = ('Runnable, terminating, deterministic programs from vf.gen.runnable (kin
         'annotated locals read before assignment, explicit return None; a chaos knob produces unbound/ill-typed uses) x 3 option sets per program '
         'drawn from the subsets of the 13 default-on switches (40% all on, singletons, uniform subsets). Oracle: observe(P) == observe(minify(P,O)) '
         'where observe = (stdout, terminating exception as nearest builtin class or exit status, description of the public namespace). '
+        'Additionally the public API of 16 real single-file stdlib modules (textwrap, heapq, colorsys, base64, shlex, fnmatch, difflib, string, '
+        'graphlib, posixpath, fractions, pprint, random, ipaddress, urllib.parse, calendar) is driven with generated arguments on the original and on the '
+        'minified module (default options; more option sets in the thorough tier) and results / exception classes must agree. '
         'Non-trivial: the original printed something or left a public namespace, and minify(P,O) differs from the all-off printing of P. '
         'Distinct = sha256(source, option set).')
 ASSUMPTIONS = ['both runs happen in-process in fresh namespaces under a 2 s timer; a timeout is inconclusive, never a violation',
@@ -68,8 +71,40 @@ def oracle(case):
     return None
 
 
+def oracle_api(case):
+    """API differential on a real stdlib module: case = module, opts, plan."""
+    strat, driver = apidrive.DRIVERS[case['module']]
+    src = apidrive.load(case['module'])
+    try:
+        out = api.minify(src, case['opts'])
+    except BaseException:
+        return None
+    a = apidrive.exec_module(src, 'verif_orig')
+    try:
+        b = apidrive.exec_module(out, 'verif_orig')
+    except BaseException as e:
+        return ('api-differential', case['module'], 'minified-module-does-not-import', type(e).__name__), str(e)[:200]
+    ra = driver(a, case['plan'])
+    rb = driver(b, case['plan'])
+    if ra != rb:
+        i = [k for k in range(len(ra)) if ra[k] != rb[k]][0]
+        return ('api-differential', case['module'], 'call-%d' % i), {'original': ra[i][:300], 'minified': rb[i][:300], 'plan': repr(case['plan'])[:300]}
+    return None
+
+
 def replay(case):
+    if 'module' in case:
+        case = dict(case)
+        if isinstance(case.get('plan'), list):
+            case['plan'] = _tuplify(case['plan'])
+        return oracle_api(case)
     return oracle(case)
+
+
+def _tuplify(x):
+    if isinstance(x, list):
+        return tuple(_tuplify(v) for v in x)
+    return x
 
 
 def shard(ctx):
@@ -99,3 +134,34 @@ def shard(ctx):
 
     strat = st.tuples(runnable.runnable_programs(), st.lists(safe_option_sets(), min_size=3, max_size=3))
     hyp_run(ctx, 'grun', strat, prop, ctx.n(2400, 60000))
+
+    # API differential on real single-file stdlib modules: each shard takes its share of the modules
+    names = sorted(apidrive.DRIVERS)
+    mine = [n for i, n in enumerate(names) if i % ctx.nshards == ctx.index]
+    for name in mine:
+        try:
+            src = apidrive.load(name)
+            apidrive.exec_module(src, 'verif_orig')
+        except BaseException as e:
+            ctx.note('api_module_not_loadable:%s:%s' % (name, type(e).__name__))
+            continue
+        strat_plan, driver = apidrive.DRIVERS[name]
+        optsets = [dict(api.DEFAULTS)] + ([] if ctx.tier == 'quick' else [dict(api.ALL_OFF, rename_locals=True, hoist_literals=True), dict(api.DEFAULTS, hoist_literals=False), dict(api.DEFAULTS, rename_locals=False)])
+        for opts in optsets:
+            try:
+                out = api.minify(src, opts)
+                mod_b = apidrive.exec_module(out, 'verif_orig')
+            except BaseException as e:
+                ctx.fail_direct({'module': name, 'opts': opts, 'plan': None}, ('api-differential', name, 'minify-or-import-fails', type(e).__name__), str(e)[:200])
+                continue
+            mod_a = apidrive.exec_module(src, 'verif_orig')
+
+            def prop_api(plan, name=name, opts=opts, mod_a=mod_a, mod_b=mod_b, driver=driver):
+                ra = driver(mod_a, plan)
+                rb = driver(mod_b, plan)
+                ctx.case(sha('api', name, api.opts_key(opts), repr(plan)), True, classes=['api:' + name], sample={'module': name, 'plan': repr(plan)[:200], 'first_result': ra[0][:100] if ra else None})
+                if ra != rb:
+                    i = [k for k in range(len(ra)) if ra[k] != rb[k]][0]
+                    ctx.fail({'module': name, 'opts': opts, 'plan': plan}, ('api-differential', name, 'call-%d' % i), {'original': ra[i][:300], 'minified': rb[i][:300]})
+
+            hyp_run(ctx, 'api-' + name, strat_plan, prop_api, max(20, ctx.n(3200, 160000) // max(1, len(optsets))))
